@@ -197,7 +197,7 @@ fn max_diff(a: &[Coor4D], b: &[Coor4D]) -> f64 {
     m
 }
 
-//@n {"id":"C13.N.conventions","props":["C13"],"tier":"quick","bound":"merc, webmerc, tmerc, btmerc, lcc, laea, somerc, omerc on a 16x16 lattice of their domain: x_0/y_0 (2 values), lon_0 (2 values), k_0 (0.9996), ellipsoid scaling (a x 2); utm zones 1, 17, 32, 60 north and south vs tmerc, butm zone 32 vs btmerc; merc on a sphere vs webmerc; merc lat_ts vs k_0; lcc 1SP vs 2SP with equal parallels","text":"x_0 and y_0 are added to the forward result; lon_0 (degrees) is equivalent to subtracting it from the input longitude; k_0 scales the unshifted plane coordinates linearly; scaling the semi-major axis scales the unshifted result; utm zone=Z == tmerc lon_0=6Z-183 k_0=0.9996 x_0=500000 y_0=0|10000000; butm likewise; merc on a sphere == webmerc on the same sphere; lat_ts == the corresponding k_0; 1SP lcc == 2SP lcc with both parallels equal (tolerance 1e-6 m, relative 1e-12 for scalings)"}
+//@n {"id":"C13.N.conventions","props":["C13"],"tier":"quick","bound":"merc, webmerc, tmerc, btmerc, lcc, laea, somerc, omerc on a 16x16 lattice of their domain: x_0/y_0 (2 values), lon_0 (2 values), k_0 (0.9996), ellipsoid scaling (a x 2); utm zones 1, 17, 32, 60 north and south vs tmerc, butm zone 32 vs btmerc; merc on a sphere vs webmerc (also at 80 < |lat| <= 89.5); merc lat_ts vs k_0; lcc 1SP vs 2SP with equal parallels","text":"x_0 and y_0 are added to the forward result; lon_0 (degrees) is equivalent to subtracting it from the input longitude; k_0 scales the unshifted plane coordinates linearly; scaling the semi-major axis scales the unshifted result; utm zone=Z == tmerc lon_0=6Z-183 k_0=0.9996 x_0=500000 y_0=0|10000000; butm likewise; merc on a sphere == webmerc on the same sphere; lat_ts == the corresponding k_0; 1SP lcc == 2SP lcc with both parallels equal (tolerance 1e-6 m, relative 1e-12 for scalings)"}
 #[test]
 fn verif_native_c13_conventions() {
     let mut ctx = Minimal::default();
@@ -333,6 +333,17 @@ fn verif_native_c13_conventions() {
             (Ok(x), Ok(y)) => {
                 let d = max_diff(&x, &y);
                 check(id.to_string(), d <= tol, format!("`{a}` != `{b}` (max deviation {d:.3e} m)"), &mut fails, &mut ids, &mut n);
+            }
+            (Err(e), _) | (_, Err(e)) => check(id.to_string(), false, e, &mut fails, &mut ids, &mut n),
+        }
+    }
+    // the same identities towards the poles (the cylindrical projections are defined on the whole open interval of latitudes)
+    let hi: Vec<Coor4D> = dom((-179.0, 179.0), (-89.5, 89.5)).into_iter().filter(|c| c[1].abs() > 80f64.to_radians()).collect();
+    for (id, a, b, tol) in [("sphere_hi", "merc ellps=sphere", "webmerc ellps=sphere", 1e-5), ("latts_hi", "merc lat_ts=60 ellps=sphere", "merc k_0=0.5 ellps=sphere", 1e-5)] {
+        match (fwd_all(&mut ctx, a, &hi), fwd_all(&mut ctx, b, &hi)) {
+            (Ok(x), Ok(y)) => {
+                let d = max_diff(&x, &y);
+                check(id.to_string(), d <= tol, format!("`{a}` != `{b}` at |lat| in 80..89.5 (max deviation {d:.3e} m)"), &mut fails, &mut ids, &mut n);
             }
             (Err(e), _) | (_, Err(e)) => check(id.to_string(), false, e, &mut fails, &mut ids, &mut n),
         }
